@@ -17,7 +17,7 @@ OPS = {'+': operator.add, '-': operator.sub, '<': operator.lt,
        '<=': operator.le, '>': operator.gt, '>=': operator.ge,
        '==': operator.eq, '!=': operator.ne}
 NUMBERS = ['i:3', 'i:0', 'b:True', 'f:2.5', 'F:1/3', 'D:0.5', 'S:1.5',
-           'c:1+2j']
+           'c:1+2j', 'f:inf', 'f:-inf', 'f:nan', 'S:Infinity']
 KS = ['i:2', 'F:1/3', 'D:-0.5']
 
 
@@ -137,9 +137,26 @@ def run_pair(w, tname, s1, a1, s2, a2, st=None):
     out += chk_q(w, +q1, cls, s1, x1, f"+({q1})", tag + ':pos')
     out += chk_q(w, Q.sum([q1, q2]), cls, s1, rnd(x1 + x2_in_1, s1),
                  f"sum([{q1}, {q2}])", tag + ':sum')
+    # augmented assignment: the same sum / difference, and the object the
+    # name was bound to before is left as it was
+    for opn, want in (('+=', rnd(x1 + x2_in_1, s1)),
+                      ('-=', rnd(x1 - x2_in_1, s1))):
+        left = cls(O.dec(a1), w.units[s1])
+        keep, h0 = left, hash(left)
+        if opn == '+=':
+            left += q2
+        else:
+            left -= q2
+        out += chk_q(w, left, cls, s1, want, f"({q1}) {opn} ({q2})",
+                     tag + ':augmented')
+        if O.fr(keep.amount) != x1 or keep.unit is not w.units[s1] or \
+                hash(keep) != h0:
+            out.append((tag + ':augmented:mutates',
+                        f"s = a; s {opn} ({q2}) changed a from {x1} {s1} to "
+                        f"{keep!r}"))
     if st is not None:
-        st.transitions += 6
-        st.evaluations += 6
+        st.transitions += 8
+        st.evaluations += 8
     if tm.quantum is None:
         # commutative by value, negation is the inverse
         l, r = q1 + q2, q2 + q1
